@@ -620,13 +620,17 @@ def r4c(repo, run):
     fi = repo.func('EvalContext.get_node')
     rows = 0
     bad = []
+    miss = None
     cached = {'p': 'P', 'p.s': 'S', 'p.s.u': 'U', 'pp': 'PP', 'q': 'Q', 'l': 'L', 'l[0]': 'L0', 'l[1]': 'L1'}
     for unsafe in ([], ['p.s'], ['p.s.u'], ['l[0]'], ['q'], ['pp'], ['p.s', 'l[1]']):
         for query in ('p', 'p.s', 'pp', 'q', 'l', 'l[1]'):
             for strict in (True, False):
                 ctx = Obj('ctx', 'EvalContext', _eval_cache=dict(cached), _eval_cache_unsafe={u: node_obj('unsafe_' + u, 'ConfigNode') for u in unsafe},
                           _require_all_safe=strict, _cfg=node_obj('cfg', 'ConfigDict'))
-                f = FDE(repo, stubs={'get_list_path'}, stub=lambda name, recv, args, kwargs, q=query: q)
+                import re as _re
+                from ..fde import PathVal
+                comps = [int(x[1:-1]) if x.startswith('[') else x for x in _re.findall(r'\[\d+\]|[^.\[\]]+', query)]
+                f = FDE(repo, stubs={'get_list_path', 'get_node'}, stub=lambda name, recv, args, kwargs, q=query, comps=comps: PathVal(comps, q) if name == 'get_list_path' else 'LOOKED-UP-IN-THE-TREE')
                 r = fde_guard(lambda: f.call(fi, ctx, query))
                 rows += 1
                 below = any(u == query or u.startswith(query + '.') or u.startswith(query + '[') for u in unsafe)
@@ -635,10 +639,14 @@ def r4c(repo, run):
                     bad.append((query, unsafe, strict, r.raised, r.ret))
                 elif not r.raised and r.ret != cached[query]:
                     bad.append((query, unsafe, strict, 'returns', r.ret))
+                    if r.ret == 'LOOKED-UP-IN-THE-TREE':
+                        miss = query
     run.table('C07.R4c', rows, 'EvalContext.get_node over cached paths x unsafe paths x strict')
     if bad:
         q, u, st, rz, rt = bad[0]
-        if st and not rz:
+        if miss is not None:
+            why = 'the path %r was evaluated (its value is in the by-path cache) but get_node does not find it there and looks it up in the static tree: the cache is keyed by the text of the path - nodes that exist only as evaluation results (content pulled in by !rec) cannot be referenced, and the strict gate is bypassed' % miss
+        elif st and not rz:
             why = 'in a context that requires all nodes to be safe the cached value of %r is handed out although %s below it was evaluated from an unsafe node: `fn: !call:f {x: !xref p}` with `p: {s: !unsafe 1}` passes the unsafe value to f' % (q, u)
         else:
             why = 'get_node(%r) with unsafe paths %s (strict=%s): %s %r' % (q, u, st, rz or 'returns', rt)
@@ -754,6 +762,7 @@ def check(repo, run, tier):
 
 def mutants(repo):
     return [
+        Mutant('path-cache-probed-with-the-path-object', lambda r: in_func(r, 'EvalContext.get_node', "        if str(path) in self._eval_cache:", "        if path in self._eval_cache:"), ['C07.R4c']),
         Mutant('multiple-sources-drop-safe', lambda r: in_func(r, 'Builder.add_multiple_sources', "self.add_source(source, raw_yaml=raw, filename=fname, safe=sflag)", "self.add_source(source, raw_yaml=raw, filename=fname)"), ['C07.R6']),
         Mutant('unsafe-error-swallowed-in-strict-block', lambda r: in_func(r, 'EvalContext.require_all_safe', "        except errors.UnsafeError as e:\n            raise errors.EvalError(", "        except errors.UnsafeError as e:\n            pass\n        except ZeroDivisionError as e:\n            raise errors.EvalError("), ['C07.R3']),
         Mutant('F20-reverted-descendants-unchecked', lambda r: in_func(r, 'EvalContext.get_node', "if not path or unsafe_path == str(path) or unsafe_path.startswith(str(path) + '.') or unsafe_path.startswith(str(path) + '['):", "if unsafe_path == str(path):"), ['C07.R4c']),
